@@ -226,6 +226,7 @@ def eigs(f, v0, k=1, which='SR', ncv=10, maxiter=None, tol=1e-13, hermitian=Fals
 
 
     V = [v0 / normv]
+    ncv = min(ncv, v0.size)  # Krylov space cannot exceed the vector space; further vectors would be rounding noise
     V, H, happy = v0.expand_krylov_space(f, 1e-13, ncv, hermitian, V, **kwargs)  # tol=1e-13
     m = len(V) if happy else len(V) - 1
     V = V[:m]
@@ -291,6 +292,7 @@ def lin_solver(f, b, v0, ncv=10, tol=1e-13, pinv_tol=1e-13, hermitian=False, **k
     if normv == 0:
         raise YastnError('Initial vector v0 of lin_solver should be nonzero.')
     Q = [q0 / normv]
+    ncv = min(ncv, q0.size)  # Krylov space cannot exceed the vector space; further vectors would be rounding noise
     Q, H, happy = q0.expand_krylov_space(f, tol, ncv, hermitian, Q, **kwargs)
     m = len(Q) if happy else len(Q) - 1
     H[(m,m-1)] = H[(0,0)] * 0 + tol if happy else H[(m,m-1)]
